@@ -19,7 +19,7 @@ CHECKS = {
         "check or call to a member that may throw is evaluated after the first length publication or character write of the body; every position parameter offset into X or subtracted from X.size() is "
         "dominated by check_index[_strict] against the same X or a branch entailing pos <= X.size(); every published length is exactly a policy-check result, a same-capacity size or 0, adjust_size only "
         "shrinks; no offset is computed from a re-derived length after a growing publication; every character write's destination range is proven inside [0,N] by linear arithmetic from the checks on its path, for every iteration of a loop by induction (candidate invariants assumed at the head and re-established at the back edge) and for the first two iterations exactly; check_size throws length_error exactly for size > N, check_add for size1+size2 > N, check_index out_of_range exactly for pos >= size, "
-        "check_index_strict exactly for pos > size, at() returns exactly for pos < size() - each decided on a symbolic summary of the function through its helpers; the storage array has N+1 elements; reads of the own buffer in the search/compare family end at or before size(). Read extents, source/destination aliasing and the silent policy are NOT decided. A shrinking publication adjust_size(-k) has k capped by the current size (parameters of non-public workers judged at their call sites); size() decodes what set_size/adjust_size encode for every layout and length (C02.enc).",
+        "check_index_strict exactly for pos > size, at() returns exactly for pos < size() - each decided on a symbolic summary of the function through its helpers; the storage array has N+1 elements; reads of the own buffer in the search/compare family end at or before size(). Read extents, source/destination aliasing and the silent policy are NOT decided. A shrinking publication adjust_size(-k) has k capped by the current size (parameters of non-public workers judged at their call sites); size() decodes what set_size/adjust_size encode for every layout and length (C02.enc). A member that checks a position or a length is not declared noexcept; the getline overloads keep the strong guarantee.",
    note="Trusts the event tables in sa/fstring.py (which calls write characters, which publish a length) and sa/linear.py; iterator parameters are assumed to point into *this."),
  "C05": dict(level="other", design="4.5",
    technique="abstract-variant typestate interpretation of the lifetime machinery over the template patterns (calls followed, visit_alt/visit_alt_at applied to their lambdas, exceptional successors at every element operation, try/catch rollback), relational truth tables against [variant.relops], guard-dominance rules for get/get_if/visit/hash, case-label/alternative agreement of the instantiated dispatch switches",
@@ -109,7 +109,7 @@ CHECKS = {
    text="Decides structural necessary conditions only: every subscript of the 256-entry decode table and of the 65-byte alphabet literal has an "
         "index whose interval (from operand types, casts and masks) lies inside the extent; the three alphabet literals equal RFC 4648, the pad is '=', "
         "the table is built as T[alphabet[i]] = i for exactly i=0..63 over a sentinel outside 0..63; the decoder tests that sentinel before a "
-        "character contributes; the shift/counter/mask constants of both accumulators are mutually consistent; where the encoder builds characters directly from bytes, every index bit has the RFC 4648 provenance. Round-trip equality is NOT decided. Loop bounds written with sizeof(array) are folded.",
+        "character contributes; the shift/counter/mask constants of both accumulators are mutually consistent; where the encoder builds characters directly from bytes, every index bit has the RFC 4648 provenance. Round-trip equality is NOT decided. Loop bounds written with sizeof(array) are folded. Encoder, decoder and their helpers keep no mutable static or thread_local local.",
    note="Trusts clang's resolved AST and sa/trange.py; an accumulator of a different shape is reported as analysis-broken, not as a violation."),
  "C16": dict(level="other", design="4.14",
    technique="symbolic linear-arithmetic entailment (guard implies range) over the span class-template pattern with helper members expanded, path-wise entailment for at(), wrap-free-atom lint, mode table from 4 configurations, body-instantiation witnesses under two compilers",
@@ -136,7 +136,7 @@ CHECKS = {
    technique="generated static_assert witnesses against independent oracles (Python list operations, decltype of a+b+c, std:: traits), discharged by the compiler",
    text="Every law is a static_assert generated for all type lists up to a bound (quick: length<=3 complete plus samples to 7; thorough: <=5), all "
         "promote_type packs of 1..2 (quick, plus thinned triples) / 1..3 (thorough) over 18 arithmetic types (incl. wchar_t, char16_t, char32_t) and 3 std::complex forms, all truth vectors "
-        "up to 3/4 for the logical traits with short-circuit (non-instantiation) witnesses, and hand-derived cv tables; the compiler discharges each on the current headers. Exhaustive within those bounds. identity (the self of a static_if branch) returns its argument in its own value category.",
+        "up to 3/4 for the logical traits with short-circuit (non-instantiation) witnesses, and hand-derived cv tables; the compiler discharges each on the current headers. Exhaustive within those bounds. identity (the self of a static_if branch) returns its argument in its own value category. if_/eval_if read the condition's ::value whatever its type; count/contains/index_of treat cv-qualified elements as distinct types.",
    note="Trusts clang++ (and g++ in thorough) template instantiation; oracles live in sa/rules/c18.py; lists longer than the bound are not covered."),
  "C19": dict(level="exploration", design="4.17",
    technique="compile matrix + AST ODR lint + link witness + throw/noreturn pairing between exception configurations (static; nothing is executed)",
